@@ -305,9 +305,12 @@ func driveC08(o opts) error {
 				w.Count("fn:" + c.Fn)
 			}
 		}
-		term := fmt.Sprintf("C08.mk [%s]\n   [%s]\n   [%s]", strings.Join(rowTerms, "; "), strings.Join(listTerms, ";\n    "), strings.Join(cfgTerms, ";\n    "))
+		term := fmt.Sprintf("C08.CQuery (C08.mk [%s]\n   [%s]\n   [%s])", strings.Join(rowTerms, "; "), strings.Join(listTerms, ";\n    "), strings.Join(cfgTerms, ";\n    "))
 		w.Add(emit.Case{Term: term, JSON: map[string]interface{}{"rows": rowsJ, "conditions": listsJ, "results": cfgJ},
 			Key: term, Nontrivial: nontrivial, Class: fmt.Sprintf("rows%d", nrows), Oracle: oracle})
+	}
+	if err := c08API(o, g, syms, w, cols, cfgs); err != nil {
+		return err
 	}
 	return w.Flush()
 }
